@@ -416,6 +416,9 @@ class Exec:
         if pid == 0:
             try:
                 os.close(rfd)
+                dn = os.open(os.devnull, os.O_WRONLY)
+                os.dup2(dn, 1)
+                os.dup2(dn, 2)
                 try:
                     data = json.dumps(self.witness_fn(model), default=str)
                 except Exception as e:
